@@ -794,6 +794,57 @@ Proof.
 Qed.
 
 (* ------------------------------------------------------------------ *)
+(* int_pins of the exposed circuits from a condition on the input *)
+Lemma exposed_int_pins c rh nets s :
+  std_design c rh -> PInv c rh nets s -> orient_frozen c (ps_d s) -> int_pins c nets -> pins_fit c rh nets ->
+  int_pins (write_back c (ps_d s)) nets.
+Proof.
+  intros SD (HR & HI & Hl & _) HF HB HP. pose proof (orient_frozen_same c rh _ HR HF) as HS.
+  assert (G : forall net p, In net nets -> In p net ->
+            INT_MIN <= cpin_x (write_back c (ps_d s)) p <= INT_MAX /\ INT_MIN <= cpin_y (write_back c (ps_d s)) p <= INT_MAX).
+  { intros net p Hn Hp. destruct (HB net Hn) as [Bx By].
+    pose proof (Bx _ (in_map (pin_px (hcells c)) net p Hp)) as Bx'. pose proof (By _ (in_map (pin_py (hcells c)) net p Hp)) as By'.
+    rewrite pin_px_circuit in Bx'. rewrite pin_py_circuit in By'. unfold cpin_x, cpin_y in *.
+    destruct (nth_error (cells c) (pc p)) as [k|] eqn:Ek.
+    2:{ assert (E : nth_error (cells (write_back c (ps_d s))) (pc p) = None)
+          by (apply nth_error_None; rewrite write_back_length; apply nth_error_None; exact Ek).
+        rewrite E. split; assumption. }
+    rewrite (write_back_nth_fwd c _ _ k Ek). destruct (export_cell_frame (ps_d s) (pc p) k) as (Ew & Eh & _).
+    rewrite Ew, Eh, (HS _ k Ek).
+    destruct (kept_dec rh k) as [Kk|Nk].
+    2:{ rewrite (export_cell_absent _ _ k (not_kept_absent c rh _ _ k SD HR HI Ek Nk)). split; assumption. }
+    destruct (kept_exported c rh _ _ k SD HR HI Hl Ek Kk) as
+      (ri & r & a & m & b & sg & _ & _ & _ & _ & Hsg & _ & Ex & Ey & _ & _ & X0 & X1 & W & _).
+    destruct (seg_shape c rh sg ri SD Hsg) as (_ & _ & r0 & Hr0 & _ & Ins & Y0). unfold inside in Ins.
+    destruct Kk as [Fx Hh]. pose proof (HP net p k r0 Hn Hp Ek Fx Hh Hr0) as Q. cbn zeta in Q.
+    rewrite Ex, Ey. lia. }
+  intros net Hn. split; intros v Hv; apply in_map_iff in Hv as (p & <- & Hp);
+    rewrite ?pin_px_circuit, ?pin_py_circuit; apply (G net p Hn Hp).
+Qed.
+
+(* deliverable 3 with hypotheses on the input only (apart from the F8 scope) *)
+Theorem exposed_monotone_static c rh nets d0 l1 l2 :
+  std_design c rh -> legal c -> from_circuit c = DOk d0 ->
+  let s0 := {| ps_d := d0; ps_o := init_models c nets |} in
+  phist_ok s0 (l1 ++ l2) ->
+  let sj := psteps_run s0 l1 in
+  let sk := psteps_run s0 (l1 ++ l2) in
+  orient_frozen c (ps_d sj) -> orient_frozen c (ps_d sk) ->
+  int_pins c nets -> pins_fit c rh nets ->
+  exposed_hpwl c nets sk <= exposed_hpwl c nets sj <= hpwl_circuit c nets /\
+  legal (write_back c (ps_d sj)) /\ legal (write_back c (ps_d sk)).
+Proof.
+  intros SD HL Hs s0 Hok sj sk Fj Fk B0 HP.
+  pose proof (init_PInv c rh nets d0 SD HL Hs) as P0. fold s0 in P0.
+  destruct (phist_ok_app l1 s0 l2 Hok) as [Ok1 _].
+  destruct (phist_keeps_invariant c rh nets l1 s0 SD P0 Ok1) as [Pj _]. fold sj in Pj.
+  destruct (phist_keeps_invariant c rh nets (l1 ++ l2) s0 SD P0 Hok) as [Pk _]. fold sk in Pk.
+  apply (exposed_monotone c rh nets d0 l1 l2); try assumption.
+  - apply (exposed_int_pins c rh nets sj); assumption.
+  - apply (exposed_int_pins c rh nets sk); assumption.
+Qed.
+
+(* ------------------------------------------------------------------ *)
 (* [R, known finding F8] the scope restriction cannot be dropped: the data of c05_frozen_offsets_refuted at circuit
    level.  Rows [0,1]x[0,4] (N) and [0,1]x[4,8] (FS); cell 0: 1 x 4, polarity SAME, pin at its lower-left corner,
    at (0,0) in the N row; cell 1: a fixed pin at (0,3).  bestInsert(0, row 1, {-1}) is accepted (optimised value
@@ -839,5 +890,6 @@ Qed.
 
 Print Assumptions exposed_value.
 Print Assumptions exposed_monotone.
+Print Assumptions exposed_monotone_static.
 Print Assumptions pstep_keeps_invariant.
 Print Assumptions exposed_frozen_offsets_refuted.
